@@ -75,10 +75,16 @@ var leaves = []leaf{
 	{"{b: 2}", bit(structs...), false},
 	{"{a: int}", bit(structs...), false},
 	{"{a: 1, b: 2}", bit("{a: 1}", "{b: 2}", "{a: 1, b: 2}", "{}"), false},
+	// a struct that conflicts with {a: 1}, and one whose only declaration is an optional field: it
+	// constrains nothing the probes have, but keeps product terms from being finalized early
+	{"{a: 2}", bit("{a: 2}", "{b: 2}", "{}"), false},
+	{"{z?: int}", bit(structs...), false},
 }
 
 // field constraints of the struct leaves: a: 0 none, 1 int, 2 the atom 1; b: 0 none, 2 the atom 2
-var structShape = map[string][2]int{"{a: 1}": {2, 0}, "{b: 2}": {0, 2}, "{a: int}": {1, 0}, "{a: 1, b: 2}": {2, 2}}
+// (a: 3 the atom 2)
+// z: 1 = carries the optional constraint z?: int (a different value from the same struct without it)
+var structShape = map[string][3]int{"{a: 1}": {2, 0, 0}, "{b: 2}": {0, 2, 0}, "{a: int}": {1, 0, 0}, "{a: 1, b: 2}": {2, 2, 0}, "{a: 2}": {3, 0, 0}, "{z?: int}": {0, 0, 1}}
 
 func leafBySrc(s string) *leaf {
 	for i := range leaves {
@@ -121,7 +127,7 @@ type term struct {
 	atom   bool
 	late   bool   // bottom, but only found out after the cross product (see lateBottom); kept when keepLate
 	st     bool   // a struct
-	sa, sb int    // its field constraints
+	sa, sb, sz int // its field constraints
 	leaves []string // the leaves whose conjunction this term is
 }
 
@@ -135,7 +141,7 @@ func max(a, b int) int {
 // key identifies the value a term denotes as far as the model can tell
 func (t term) key() string {
 	if t.st {
-		return fmt.Sprintf("S%d%d", t.sa, t.sb)
+		return fmt.Sprintf("S%d%d%d", t.sa, t.sb, t.sz)
 	}
 	return fmt.Sprintf("%x", t.ext)
 }
@@ -170,7 +176,7 @@ func bottom(ls []string) bool {
 }
 
 func and(a, b term) term {
-	return term{ext: a.ext & b.ext, atom: a.atom || b.atom, late: a.late || b.late, st: a.st || b.st, sa: max(a.sa, b.sa), sb: max(a.sb, b.sb),
+	return term{ext: a.ext & b.ext, atom: a.atom || b.atom, late: a.late || b.late, st: a.st || b.st, sa: max(a.sa, b.sa), sb: max(a.sb, b.sb), sz: max(a.sz, b.sz),
 		leaves: append(append([]string{}, a.leaves...), b.leaves...)}
 }
 
@@ -200,7 +206,7 @@ func eval(e *E, sticky bool) pair {
 	case "leaf":
 		l := leafBySrc(e.Leaf)
 		sh, st := structShape[l.src]
-		return pair{v: []term{{ext: l.ext, atom: l.atom, st: st, sa: sh[0], sb: sh[1], leaves: []string{l.src}}}}
+		return pair{v: []term{{ext: l.ext, atom: l.atom, st: st, sa: sh[0], sb: sh[1], sz: sh[2], leaves: []string{l.src}}}}
 	case "&":
 		a, b := eval(e.Args[0], sticky), eval(e.Args[1], sticky)
 		p := pair{v: cross(a.v, b.v)}
@@ -281,7 +287,7 @@ func evalT(e *E, site *int, under bool) []tterm {
 	case "leaf":
 		l := leafBySrc(e.Leaf)
 		sh, st := structShape[l.src]
-		return []tterm{{term{ext: l.ext, atom: l.atom, st: st, sa: sh[0], sb: sh[1], leaves: []string{l.src}}, map[int]bool{}, map[int]int{}}}
+		return []tterm{{term{ext: l.ext, atom: l.atom, st: st, sa: sh[0], sb: sh[1], sz: sh[2], leaves: []string{l.src}}, map[int]bool{}, map[int]int{}}}
 	case "&":
 		a, b := evalT(e.Args[0], site, under), evalT(e.Args[1], site, under)
 		var r []tterm
@@ -521,6 +527,12 @@ func exclusion(e *E) string {
 		}
 	}
 	walk(e, false, false)
+	if ndisj >= 2 && strings.Contains(e.String(), "{z?: int}") {
+		// known finding F77: product terms that carry an optional field are compared before their
+		// fields are evaluated, so distinct struct disjuncts are merged (a value silently chosen, or
+		// a spurious conflict)
+		return "F77-struct-disjunction-product-with-optional-field"
+	}
 	if !marked {
 		return "" // without marks there is no default bookkeeping to go wrong
 	}
@@ -722,6 +734,7 @@ var pools = [][]string{
 	{"1", "2", "int", "_"}, // few leaves: duplicate disjuncts after unification are the rule
 	{`"a"`, `"b"`, "string", "1", "int"},
 	{"1", "2", "int", ">1", "<3"},
+	{"{a: 1}", "{a: 2}", "{z?: int}", "{a: int}", "{b: 2}"}, // structs only: conflicting, and with an optional field
 }
 
 func genLeaf(t *rapid.T) *E {
@@ -732,7 +745,7 @@ func genLeaf(t *rapid.T) *E {
 }
 
 func genCase(t *rapid.T) Case {
-	pool = pools[rapid.SampledFrom([]int{0, 1, 2, 3, 4, 5, 5, 6, 6, 7}).Draw(t, "pool")]
+	pool = pools[rapid.SampledFrom([]int{0, 1, 2, 3, 4, 5, 5, 6, 6, 7, 8, 8}).Draw(t, "pool")]
 	switch rapid.IntRange(0, 9).Draw(t, "shape") {
 	case 0, 1: // no marks, free nesting
 		return Case{genE(t, 3, false)}
